@@ -11,7 +11,9 @@ Null == [t |-> "null"]
 Pool == {NumD(N1), NumD(N2_5), StrD(Sa), StrD(Sb), StrD(S1), BoolD(TRUE), BoolD(FALSE), Null, StrD(Sa_b), NumD(N10)}
 Docs == Pool \cup {NumD(N2), StrD(Sabc), NumD(N1_0), StrD(<<116, 114, 117, 101>>), StrD(<<110, 117, 108, 108>>), StrD(<<97, 47, 98>>), StrD(<<34, 97>>),
                    StrD(<<97, 92>>), StrD(Sab), StrD(Sxaby), StrD(Sempty), StrD(<<97, 10, 99>>), StrD(Sac), StrD(<<48, 49, 50>>), StrD(<<97, 46, 99>>), StrD(<<97, 120, 99>>)}
-DocSeq == SetToSeq(Docs)
+Strs3 == UNION {[1..n -> {97, 98, 47}] : n \in 0..3}                      \* Level 2: every string up to 3 over a, b, /
+AllDocs == Docs \cup (IF Level = 2 THEN {StrD(c) : c \in Strs3} ELSE {})
+DocSeq == SetToSeq(AllDocs)
 Lists == UNION {[1..k -> Pool] : k \in 1..(IF Level = 1 THEN 2 ELSE 3)}
          \cup {<<NumD(N1), StrD(S1), BoolD(TRUE), StrD(<<116, 114, 117, 101>>)>>, <<Null, StrD(<<110, 117, 108, 108>>), NumD(N1), NumD(N1_0)>>}
 HasDup(l) == \E i, j \in DOMAIN l : i < j /\ SameScalar(l[i], l[j]) = "accept"
@@ -27,10 +29,17 @@ Regexes == { Cat([t |-> "bol"], Cat(Chr(97), Chr(98))), Cat(Chr(98), [t |-> "eol
              Cat(Chr(97), Chr(92)),                          \* a\    (pattern text ends with an escaped backslash)
              Cat([t |-> "bol"], Cat(Chr(97), Cat(Chr(92), Cat(Chr(47), [t |-> "eol"])))),   \* ^a\/$ : backslash then slash
              [t |-> "star", a |-> Chr(120)] }
+\* Level 2: every regular expression of two operands over a small atom set (a character, a character that must be escaped
+\* inside /P/, any, a class, a negated class, each plain or under * + ?), joined by concatenation or alternation, anchored or not
+Atoms == {Chr(97), Chr(98), Chr(47), [t |-> "any"], [t |-> "set", cs |-> <<97, 98>>, neg |-> FALSE], [t |-> "set", cs |-> <<97>>, neg |-> TRUE]}
+Unary == Atoms \cup {[t |-> u, a |-> x] : u \in {"star", "plus", "opt"}, x \in Atoms}
+Binary == {[t |-> o, a |-> x, b |-> y] : o \in {"cat", "alt"}, x \in Unary, y \in Unary}
+Anchored(e) == {e, Cat([t |-> "bol"], e), Cat(e, [t |-> "eol"]), Cat([t |-> "bol"], Cat(e, [t |-> "eol"]))}
+RegexGrid == IF Level = 2 THEN UNION {Anchored(e) : e \in Unary \cup Binary} ELSE {}
 VARIABLES k, x, lay
 \* layouts: 0 one line, 1 one item per line with // comments (LF), 2 /* */ comments, 3 blanks around, 4 / 5 as 1 with CRLF / CR line ends, 6 as 1 with empty comments
 Init == \/ (k = "enum" /\ x \in Lists /\ lay \in 0..6)
-        \/ (k = "regex" /\ x \in Regexes /\ lay = 0)
+        \/ (k = "regex" /\ x \in Regexes \cup RegexGrid /\ lay = 0)
 Next == UNCHANGED <<k, x, lay>>
 Spec == Init /\ [][Next]_<<k, x, lay>>
 Emit == IF k = "enum"
